@@ -35,7 +35,7 @@ Definition sentinel (c : cause) : Prop := c = CConflict \/ c = CNotReady \/ c = 
 Lemma repl_cause_failed : forall ft s, 1 <= ft -> fail s >= ft ->
   exists c, repl_cause ft s = Some c /\ sentinel c /\ (c = CConflict -> confl s >= ft).
 Proof.
-  intros ft s Hft Hf. unfold repl_cause. rewrite skeleton_holds. cbn [negb].
+  intros ft s Hft Hf. unfold repl_cause.
   destruct (Z.eqb_spec (fail s) 0) as [E|E]; [lia|].
   unfold replCause_order. cbn [exp_entries cause_of_name count_of_pred String.eqb Ascii.eqb Bool.eqb].
   unfold sort_desc. cbn [fold_left ins_desc snd fst].
@@ -83,6 +83,37 @@ Proof.
         destruct Hs as [->|[->| ->]]; cbn in E1, E2, E3; discriminate.
 Qed.
 
+(* the request is a conflict only when every failed series is one *)
+Lemma write_cause_conflict_all : forall cs, Forall sentinel cs -> write_cause cs = Some CConflict ->
+  Forall (fun c => c = CConflict) cs.
+Proof.
+  intros cs Hall H. unfold write_cause, writeCause_order in H.
+  cbn [first_counted cause_of_name String.eqb Ascii.eqb Bool.eqb] in H.
+  rewrite holds_any_unav in H.
+  destruct (existsb (fun c => match c with CUnavailable => true | _ => false end) cs) eqn:E1; [discriminate|].
+  rewrite holds_any_nrdy in H.
+  destruct (existsb (fun c => match c with CNotReady => true | _ => false end) cs) eqn:E2; [discriminate|].
+  apply Forall_forall. intros c Hin. rewrite Forall_forall in Hall.
+  destruct (Hall c Hin) as [->|[->| ->]]; [reflexivity| |].
+  - exfalso. assert (existsb (fun c => match c with CNotReady => true | _ => false end) cs = true)
+      by (apply existsb_exists; exists CNotReady; auto). congruence.
+  - exfalso. assert (existsb (fun c => match c with CUnavailable => true | _ => false end) cs = true)
+      by (apply existsb_exists; exists CUnavailable; auto). congruence.
+Qed.
+
+Lemma failed_causes_in : forall ft st cs x, failed_causes ft ft st = Some cs -> In x st -> fail x >= ft ->
+  exists c, repl_cause ft x = Some c /\ In c cs.
+Proof.
+  intros ft st. induction st as [|s st IH]; intros cs x H Hin Hf; [contradiction|].
+  cbn [failed_causes] in H. destruct (failed_causes ft ft st) as [cs'|] eqn:E; [|discriminate].
+  destruct Hin as [->|Hin].
+  - destruct (Z.geb_spec (fail x) ft); [|lia].
+    destruct (repl_cause ft x) as [c|]; [|discriminate]. inversion H; subst. exists c. split; [reflexivity|left; reflexivity].
+  - destruct (IH cs' x eq_refl Hin Hf) as [c [Hc Hi]]. exists c. split; [exact Hc|].
+    destruct (fail s >=? ft); [|inversion H; subst; exact Hi].
+    destruct (repl_cause ft s); [|discriminate]. inversion H; subst. right. exact Hi.
+Qed.
+
 Lemma failed_causes_spec : forall ft st, 1 <= ft ->
   exists cs, failed_causes ft ft st = Some cs
     /\ Forall (fun c => sentinel c /\ (c = CConflict -> exists s, In s st /\ confl s >= ft)) cs
@@ -122,6 +153,32 @@ Proof.
     exists c. rewrite Ec. split; [reflexivity|]. split; [exact Hs|]. split.
     + intro H. rewrite Forall_forall in Hall. destruct (Hall c Hin) as [_ Hc]. auto.
     + intro H. apply Hnil in H. discriminate.
+Qed.
+
+(* a failed series that conflicts alone do not block makes the request retryable *)
+Lemma finish_retryable : forall ft st x, 1 <= ft -> In x st -> fail x >= ft -> confl x < ft ->
+  exists c, finish ft ft st = Some (Failed c) /\ (c = CNotReady \/ c = CUnavailable).
+Proof.
+  intros ft st x Hft Hin Hf Hc.
+  destruct (failed_causes_spec ft st Hft) as [cs [E [Hall Hnil]]].
+  destruct (failed_causes_in ft st cs x E Hin Hf) as [c0 [Hc0 Hin0]].
+  assert (Hsent : Forall sentinel cs) by (eapply Forall_impl; [|exact Hall]; intros a [Ha _]; exact Ha).
+  assert (Hne : cs <> []) by (intro; subst; contradiction).
+  destruct (write_cause_sentinels cs Hne Hsent) as [c [Ec [Hs _]]].
+  unfold finish. rewrite E. destruct cs as [|c1 cs']; [congruence|]. rewrite Ec. cbn [option_map].
+  exists c. split; [reflexivity|].
+  destruct Hs as [->|[->| ->]]; [|auto|auto]. exfalso.
+  pose proof (write_cause_conflict_all _ Hsent Ec) as Hallc. rewrite Forall_forall in Hallc.
+  specialize (Hallc c0 Hin0). subst c0.
+  destruct (repl_cause_failed ft x Hft Hf) as [c' [Hc' [_ Himp]]]. rewrite Hc0 in Hc'. inversion Hc'; subst.
+  specialize (Himp eq_refl). lia.
+Qed.
+
+Lemma forallb_false_exists : forall A (f : A -> bool) l, forallb f l = false -> exists x, In x l /\ f x = false.
+Proof.
+  intros A f l. induction l as [|x l IH]; cbn; [discriminate|]. destruct (f x) eqn:E.
+  - intro H. destruct (IH H) as [y [Hy Hf]]. exists y. auto.
+  - intros _. exists x. auto.
 Qed.
 
 (* the loop stops after some prefix of the responses *)
@@ -278,30 +335,6 @@ Proof.
     destruct (Z.geb_spec (conflicts_of s rs) ft); [lia|discriminate].
   - intros [s [Hs H]]. exists s. split; [apply in_seq; lia|].
     destruct (Z.geb_spec (conflicts_of s rs) ft); [reflexivity|lia].
-Qed.
-
-Lemma handle_pred : forall rf rep place ws, 1 <= rf -> 0 <= rep ->
-  exists st, handle rf rep place ws = Some st /\ pred_ok (CFan rf rep place ws st) = true.
-Proof.
-  intros rf rep place ws Hrf Hrep. unfold handle.
-  destruct (Nat.eqb (List.length place) 0) eqn:En.
-  - exists 200. split; [reflexivity|]. cbn [pred_ok]. destruct (rep >? rf); [reflexivity|].
-    reflexivity.
-  - destruct (rep >? rf) eqn:Er.
-    + exists 400. split; [exact status_badreplica|]. cbn [pred_ok]. rewrite Er. reflexivity.
-    + pose proof (ft_ge_1 rf rep Hrf Hrep) as Hft.
-      set (q := success_threshold rf rep) in *. set (nrep := n_replicas rf rep) in *.
-      set (ft := failureThreshold_expr nrep q) in *.
-      set (rs := resps_of place ws). set (n := List.length place).
-      cbn [pred_ok]. rewrite Er. fold q nrep rs n.
-      rewrite <- failure_threshold_spec. fold ft.
-      destruct (existsb (fun s => conflicts_of s rs >=? ft) (seq 0 n)) eqn:Ep.
-      * destruct (fan_never_500 n q ft rs Hft) as [st [E Hst]]. exists st. split; [exact E|].
-        destruct Hst as [->|[->| ->]]; reflexivity.
-      * destruct (fan_outcome n q ft rs Hft) as [E|[[_ Hex]|E]].
-        -- exists 200. split; [exact E|]. reflexivity.
-        -- apply existsb_conflicts in Hex. congruence.
-        -- exists 503. split; [exact E|]. reflexivity.
 Qed.
 
 (* ---- the defect that was repaired: with es.threshold = successThreshold
